@@ -52,6 +52,12 @@ fn health() {
                 let r = svc.update_service_state_entry(&k, &v, max.parse().unwrap());
                 r.to_string()
             }
+            ["svc", "stream", which, v, max] => {
+                // the two notification streams of the monitor loop, under the keys the code itself uses for them
+                let k = if *which == "status" { crate::constants::STATE_KEY_READ_PROXY_AGENT_STATUS_FILE } else { crate::constants::STATE_KEY_FILE_VERSION };
+                let v = String::from_utf8(unhex(v).unwrap()).unwrap();
+                svc.update_service_state_entry(k, &v, max.parse().unwrap()).to_string()
+            }
             _ => "bad-op".to_string(),
         };
         writeln!(out, "{}", r).unwrap();
